@@ -601,18 +601,27 @@ func (c *ctlChain) GetBlockHash(h uint64) common.Hash {
 // runBlockX: newVMExecutor(fresh state of w, block, situation).Execute() with the given chain context;
 // also returns the transaction list Execute returns (what a proposer publishes as the block body).
 func runBlockX(w *world, bc blockCase, height uint64, situation string, chain *ctlChain) (o blockOutcome, packed []*types.Transaction, panicked interface{}) {
+	txs := make([]*types.Transaction, len(bc.Txs))
+	for i, d := range bc.Txs {
+		txs[i] = d.tx()
+	}
+	return runTxsX(w, &types.Block{Header: headerAt(height), Transactions: txs}, situation, chain)
+}
+
+// headDelta: the node's own head (the process-global height the proposal gates read) relative to the
+// normal case "head = height of the block being executed - 1".
+var headDelta int64
+
+// runTxsX executes a given block OBJECT (the caller keeps the transaction slice).
+func runTxsX(w *world, block *types.Block, situation string, chain *ctlChain) (o blockOutcome, packed []*types.Transaction, panicked interface{}) {
+	height := block.Header.Height
 	defer func() {
 		if p := recover(); p != nil {
 			panicked = fmt.Sprintf("%v\n%s", p, debug.Stack())
 		}
 	}()
-	common.SetBlockHeight(height - 1)
+	common.SetBlockHeight(uint64(int64(height-1) + headDelta))
 	adb := w.fresh()
-	txs := make([]*types.Transaction, len(bc.Txs))
-	for i, d := range bc.Txs {
-		txs[i] = d.tx()
-	}
-	block := &types.Block{Header: headerAt(height), Transactions: txs}
 	root, evicted, executed, receipts := core.VerifC01ExecuteBlockWithChain(adb, block, situation, chain)
 	packed = executed
 	o.Root = root.Hex()
@@ -939,6 +948,10 @@ func main() {
 
 	// ---- L7 proposer (casting, wall clock) vs verifier ----
 	castSearch(a, rng, res, nBlk/4)
+
+	// ---- L10 the node's own head height; L11 block helpers keep their arguments, roles, re-execution ----
+	headHeightSearch(a, rng, res)
+	roleSearch(a, rng, res)
 
 	// ---- L8 blocks executing concurrently in one process ----
 	concurrencySearch(a, rng, res)
